@@ -1174,6 +1174,21 @@ fn decoy_tc(r: &mut Rng, q: &Qd, buf: usize, tc4: u64) -> String {
             qb.extend_from_slice(&q.qclass.to_be_bytes());
             format!("IIII{}", hx(&msg_tail(fl, 1, 0, &qb, &[])))
         }
+        _ if r.chance(1, 3) && q.qname != "." => {
+            // right ID, the asked name is a proper textual prefix of the question name:
+            // the last label continues (`example.com` -> `example.community`) or more labels follow
+            let base = q.qname.trim_end_matches('.').to_string();
+            let other = match r.below(3) {
+                0 => format!("{}x", base),
+                1 => format!("{}munity.", base),
+                _ => format!("{}.attacker.net", base),
+            };
+            let o = Qd {
+                qname: other,
+                ..q.clone()
+            };
+            format!("IIII{}", hx(&msg_tail(fl, 1, 0, &o.question(false), &[])))
+        }
         _ => {
             // right ID, one label fewer / one more
             let other = if r.chance(1, 2) || q.qname == "." {
@@ -1889,6 +1904,12 @@ fn gen_c16(r: &mut Rng, index: u64) -> String {
             }
             _ => {
                 drop = Some(if short { r.range(10, 30) } else { r.range(10, 50) });
+                // an abandoned *typed* query takes the client's reusable buffer with it
+                if r.chance(1, 2) {
+                    api = "rrset";
+                    q.qtype = 1;
+                    q.qclass = 1;
+                }
                 if strat == "tcp" {
                     tcp.push(vec!["h".to_string()]);
                 }
